@@ -30,6 +30,10 @@ DEAROMATIZED = {
     AROMATIC_TRIPLE: TRIPLE,
     AROMATIC: ANY,
 }
+# remove_aromaticity() on a bond of type AROMATIC: the docstrings only state
+# AROMATIC_{ORDER} -> {ORDER}; "order unknown" (ANY) or "left as it is" are both
+# within the documentation, an invented order is not.
+PLAIN_AROMATIC_TARGETS = (ANY, AROMATIC)
 
 
 def norm_index(i, n):
@@ -156,10 +160,19 @@ class BondModel:
         self.b = {(a + k, b + k): t for (a, b), t in self.b.items()}
         self.n += k
 
-    def remove_aromaticity(self):
+    def remove_aromaticity(self, plain_aromatic=None):
+        """AROMATIC_{ORDER} -> {ORDER} (documented).  The target of plain AROMATIC
+        (no formal order) is not documented: by default ANY (what biotite does);
+        ``plain_aromatic`` (dict pair -> type) lets the caller state another
+        outcome per bond, which is taken only if it is one of
+        PLAIN_AROMATIC_TARGETS."""
         changed = 0
         for k, t in list(self.b.items()):
-            if t in DEAROMATIZED:
+            if t == AROMATIC and plain_aromatic is not None:
+                t2 = plain_aromatic.get(k)
+                self.b[k] = t2 if t2 in PLAIN_AROMATIC_TARGETS else ANY
+                changed += self.b[k] != t
+            elif t in DEAROMATIZED:
                 self.b[k] = DEAROMATIZED[t]
                 changed += 1
         return changed
